@@ -17,8 +17,9 @@ PROP = Prop(
     assumptions=["partition counts are non-negative; owned/prior partitions are non-negative int32 (negative claims are not generated)",
                  "topic and member names are ASCII (Go byte order = Lean string order)",
                  "members with the same static instance id are unordered for Go's unstable sort: the model output is not compared there, only the Spec"],
-    partial="kfake assignUniform validity holds only for disjoint prior targets (kUniform_valid_partial); the full statement is refuted "
-            "(kUniform_conflicting_priors_invalid). Sticky / cooperative-sticky engine validity is checked on outputs, not proved.",
+    partial="kfake assignUniform validity holds only for disjoint prior targets (kfakeUniform_valid_partial); the full statement is refuted "
+            "(kfakeUniform_conflicting_priors_invalid; reachable over the wire, see harness/cmd/c25/reachprobe). Sticky / cooperative-sticky engine "
+            "validity is checked on outputs, not proved; the engine fails it when a subscription lists a topic twice (finding sticky-duplicate-subscription).",
 )
 MANIFEST = {
     "text": "Lean theorems, for groups of any size: the models of range (with rack phase), round-robin, kfake assignRange and kfake assignUniform "
@@ -27,6 +28,7 @@ MANIFEST = {
             "losing it. The models are tied to the code by exact differential runs (public GroupBalancer/ConsumerBalancer interfaces; kfake via a "
             "verif hook). Sticky and cooperative-sticky validity itself is checked on the real engine's output for every generated input, not proved.",
     "note": "Trusted: Lean kernel; the hand-written models (validated differentially, not verified against the Go source); generators. "
-            "Not proved: internal/sticky. Known: kfake assignUniform double-assigns on conflicting prior targets (refuted full statement, witness in Props).",
+            "Not proved: internal/sticky. Findings: kfake assignUniform double-assigns on conflicting prior targets (full statement refuted in Props, input "
+            "reachable through static leave/rejoin); the sticky engine assigns to a non-subscriber when some subscription lists a topic twice.",
     "technique": "Lean 4 proof (induction over members/topics/partitions) with differential correspondence and output-checked Spec for the unmodelled sticky engine",
 }
